@@ -144,6 +144,7 @@ func (c14) Run(ctx *RunCtx) {
 	// request sends one feature request and judges the answer; echo=true marks a
 	// request that repeats the previous one after a state change (always compared)
 	var request func(op int, doc *JDoc, method string, params J, l, ch int, occ *Occ, echo bool)
+	lastPending := 0
 	request = func(op int, doc *JDoc, method string, params J, l, ch int, occ *Occ, echo bool) {
 		pendingBefore := d.LiveBg()
 		if _, timer := d.Env.Clock.NextTimer(); timer {
@@ -155,6 +156,7 @@ func (c14) Run(ctx *RunCtx) {
 			pendingBefore++
 		}
 		pendingCfg := len(d.Sess.PendingServerRequests())
+		lastPending = pendingBefore
 		// what had been published when the request was sent (a publish may arrive
 		// while the request is being served)
 		pubBefore := map[string]int{}
@@ -211,9 +213,6 @@ func (c14) Run(ctx *RunCtx) {
 		if failed || ctx.Race || faulty || !(doCompare || echo) {
 			return
 		}
-		if echo {
-			ctx.Stats.Inc("probe:request-repeated-after-a-state-change")
-		}
 		// ---- differential oracle
 		quiescent := pendingBefore == 0 && pendingCfg == 0
 		ref := StartRef(ctx, spec(false, nil, 0))
@@ -241,8 +240,11 @@ func (c14) Run(ctx *RunCtx) {
 				for _, od := range w.OpenDocs() {
 					from := 0
 					if lp, ok := pubBefore[od.URI]; ok {
-						for i, m := range od.History {
-							if m == lp {
+						// an undo repeats a marker in the history, and a publish carrying
+						// it may stem from the earlier occurrence: every version since
+						// the FIRST of the recent occurrences may be the lagging one
+						for i := len(od.History) - 1; i >= 0 && i >= len(od.History)-5; i-- {
+							if od.History[i] == lp {
 								from = i
 							}
 						}
@@ -357,6 +359,7 @@ func (c14) Run(ctx *RunCtx) {
 		}
 		doc := w.Docs[c.Choose("doc", len(w.Docs))]
 		kind := c.Weighted("op", []int{9, 2, 2, 14, 2, 1, 2})
+		settlePct := 30
 		if !doc.Open && kind != 4 && kind != 5 && kind != 6 {
 			if c.Pct("request-on-closed", 10) {
 				r := d.Call("textDocument/hover", J{"textDocument": docID(doc.URI), "position": pos(0, 0)})
@@ -375,10 +378,23 @@ func (c14) Run(ctx *RunCtx) {
 			ctx.T("op%d didOpen d%d v%d includes=%v", op, doc.No, doc.Marker, doc.Includes)
 			kinds = append(kinds, "open")
 		case 0:
+			prevIncs := strings.Join(doc.Includes, "|")
 			p, how := w.Change(c, doc)
 			d.Notify("textDocument/didChange", p)
 			ctx.T("op%d didChange d%d -> v%d (%s) includes=%v", op, doc.No, doc.Marker, how, doc.Includes)
 			kinds = append(kinds, "change")
+			if gl := doc.GhostLines(); prevIncs != strings.Join(doc.Includes, "|") && len(gl) > 0 && c.Pct("ghost-text-right-after-tree-change", 40) {
+				// the edit changed the include lines: ghost text over the include tree
+				// is asked for while the analysis that computes the new tree is on its
+				// way, and (mostly) once more when it has finished
+				d.PumpN(c.Choose("steps-before-ghost-text", 6))
+				g := gl[c.Choose("ghost", len(gl))]
+				gp := J{"textDocument": docID(doc.URI), "position": pos(g, 0)}
+				ctx.Stats.Inc("probe:ghost-text-asked-right-after-the-include-lines-changed")
+				request(op, doc, "textDocument/inlineCompletion", gp, g, 0, nil, false)
+				lastReq = &echoReq{doc, "textDocument/inlineCompletion", gp, g, 0, nil}
+				kind, settlePct = 3, 80
+			}
 		case 1:
 			if !workspace {
 				// Without a workspace the server learns about other files only when
@@ -453,7 +469,7 @@ func (c14) Run(ctx *RunCtx) {
 			td := J{"textDocument": docID(doc.URI), "position": pos(l, ch)}
 			var method string
 			var params J
-			switch c.Choose("feature", 16) {
+			switch c.Choose("feature", 18) {
 			case 0, 1:
 				method, params = "textDocument/completion", td
 			case 2:
@@ -480,8 +496,9 @@ func (c14) Run(ctx *RunCtx) {
 				method, params = "textDocument/semanticTokens/full", J{"textDocument": docID(doc.URI)}
 			case 13:
 				method, params = "textDocument/semanticTokens/range", J{"textDocument": docID(doc.URI), "range": rng(0, 0, 1+c.Choose("range-lines", len(doc.Lines)), 0)}
-			case 14:
-				// ghost text on the empty line after the header being typed
+			case 14, 16, 17:
+				// ghost text on the empty line after the header being typed (weighted:
+				// the one feature with a per-document cache over the include tree)
 				gl := doc.GhostLines()
 				method, params = "textDocument/inlineCompletion", J{"textDocument": docID(doc.URI), "position": pos(gl[c.Choose("ghost", len(gl))], 0)}
 			case 15:
@@ -502,6 +519,17 @@ func (c14) Run(ctx *RunCtx) {
 				answerConfig(true)
 				d.Quiesce()
 			}
+			ctx.Stats.Inc("probe:request-repeated-after-a-state-change")
+			request(op, lastReq.doc, lastReq.method, lastReq.params, lastReq.l, lastReq.ch, lastReq.occ, true)
+		}
+		// ... and after background work that was pending during the first answer
+		// has finished, with no state change in between: what a request computed
+		// from a half-finished state (and may have cached once the work had
+		// finished) must not be served afterwards
+		if kind == 3 && lastReq != nil && lastReq.doc.Open && !failed && lastPending > 0 && c.Pct("echo-after-settling", settlePct) {
+			answerConfig(true)
+			d.Quiesce()
+			ctx.Stats.Inc("probe:request-repeated-after-pending-work-finished")
 			request(op, lastReq.doc, lastReq.method, lastReq.params, lastReq.l, lastReq.ch, lastReq.occ, true)
 		}
 		answerConfig(false)
